@@ -23,7 +23,9 @@ def conv(tokens):
 tokens = re.findall(r'\(|\)|[xn][0-9a-f]*', sx)
 term = conv(tokens)
 n = int(num)
-if n in (3, 8, 11, 15):
+if n == 9:
+    mod, imp, dec = 'SST', 'C09', 'C09.decode'
+elif n in (3, 8, 11, 15):
     mod, imp, dec = 'SST', 'SSTC', 'SSTC.decode_c%02d' % n
 else:
     mod = imp = 'C%02d' % n
